@@ -352,7 +352,7 @@ func (wk *walker) envAction() {
 			paused, _ := nestedMap(m, "spec")["paused"].(bool)
 			w.EnvSetPaused(d, !paused)
 		} else {
-			w.EnvSetTemplate(d, w.TemplateBase+rng.Intn(3))
+			w.EnvSetTemplate(d, w.TemplateBase+rng.Intn(4))
 		}
 		return
 	}
